@@ -29,17 +29,17 @@ CHECKS["C01"] = dict(
 CHECKS["C02"] = dict(
     level="exploration", design="DESIGN.md 3/C02",
     technique="property-based testing: generated programs + Sierra-type-directed in-range arguments for corpus functions + gas-budget sweeps; oracle: the VM run returns Ok (value or Sierra-level panic), never CairoRunError",
-    text="~20k executions per quick run: generated programs on panic-provoking inputs, every free function with constructible parameter types from the e2e libfunc snippets and examples on boundary/in-range arguments, each also re-run under 3 gas budgets swept between the entry cost and 1.5x the honest consumption so that withdraw_gas fails at different points; both solvers, several front-end configurations.",
+    text="~110k executions per quick run: generated programs on panic-provoking inputs, builtin-loop programs (gens/builtin_loops: 13 builtin-using operations x 6 control-flow shapes, e.g. one dictionary keyed by a small index and a large felt), every free function with constructible parameter types from the e2e libfunc snippets and examples on boundary/in-range arguments, each also re-run under 3 gas budgets swept between the entry cost and 1.5x the honest consumption so that withdraw_gas fails at different points; both solvers, several front-end configurations.",
     note="Trusted: arguments are in range by Sierra parameter type (my generator), honest hints are the runner's. Budget 3*10^8 gas keeps the gas-bounded step count feasible. Mutants of Sierra that still compile are exercised by C15's population, not here.")
 CHECKS["C04"] = dict(
     level="exploration", design="DESIGN.md 3/C04",
     technique="property-based testing with a trace invariant: 100*steps + sum price(b)*uses(b) <= (gas given - gas left) + 100 on every execution with a gas counter, under both gas solvers and swept budgets",
-    text="~11k judged executions per quick run (generated programs with loops/recursion/dicts/arrays, corpus functions), half of them out-of-gas runs produced by the budget sweep; the inequality is tight on this tree (hundreds of runs with slack exactly 0), so an undercharge of one step on a covered path flips it.",
+    text="~21k judged executions per quick run (generated programs with loops/recursion/dicts/arrays, corpus functions, and ~800 builtin-loop programs that use Pedersen / Poseidon / Bitwise / EcOp / circuit AddMod-MulMod / Blake2s / dictionaries / QM31 inside loops, recursion, one- and two-armed conditionals, early exits and non-inlined helpers), half of them out-of-gas runs produced by the budget sweep; the inequality is tight on this tree (hundreds of runs with slack exactly 0), so an undercharge of one step on a covered path flips it.",
     note="Trusted: step count from the relocated trace outside the entry-code header; prices from ConstCost/token_gas_cost; memory holes unpriced (weaker, no false alarms). Solver Err = no metadata, skipped.")
 CHECKS["C17"] = dict(
     level="exploration", design="DESIGN.md 3/C17",
     technique="property-based testing with trace invariants (per dynamic call frame ap_at_ret - ap_at_entry == declared ap change; statement ranges tile the bytecode; executed pcs are instruction boundaries in exactly one range), plus two metamorphic / differential parts for reachability of ap-relative values: store-elision mutants of compiled programs must keep their result, and generated Sierra data-flow programs with calls of unknown ap change must compute what an own evaluation of the data flow prescribes",
-    text="~12k executions / ~400k checked call frames per quick run over generated programs (recursion, nested calls, loops) and corpus functions, alternating linear and non-linear ap-change solvers; static layout invariants checked for every compiled program; ~16k store-elision mutants (store_temp -> rename, store_local -> drop + rename; ~400 accepted and compared) and ~850 generated data-flow programs (~80 accepted and compared) per quick run.",
+    text="~12k executions / ~400k checked call frames per quick run over generated programs (recursion, nested calls, loops) and corpus functions, alternating linear and non-linear ap-change solvers; static layout invariants checked for every compiled program, with instruction lengths taken from the assembled encoding; ~16k store-elision mutants (store_temp -> rename, store_local -> drop + rename; ~400 accepted and compared) and ~850 generated data-flow programs (~80 accepted and compared) per quick run.",
     note="Trusted: frames are delimited by call/ret of the compiled instruction list (pcs beyond it - const segments, footer - are bare rets).")
 
 CHECKS["C05"] = dict(
@@ -51,8 +51,8 @@ CHECKS["C05"] = dict(
 CHECKS["C06"] = dict(
     level="exploration", design="DESIGN.md 3/C06",
     technique="exhaustive enumeration (all 65,536 operand pairs of u8 and i8) + boundary cross products + seeded random operands for wider types, against a BigInt model of every operation",
-    text="~1M executions per quick run: for each of u8..u128, i8..i128, u256, felt252 a generated crate exposes the operator forms (+ - * / %, unary -) and a batch of overflowing/wrapping/checked/saturating variants, comparisons, bitwise ops, sqrt, wide_mul, div_rem, felt252_div and try_into to every other type; results and panic data are compared with the mathematical model. The 8-bit slice is exhaustive; wider types are explored on boundary sets (2^k, 2^k+-1, MIN/MAX+-d, perfect squares +-1) and random operands.",
-    note="Trusted: the BigInt model in props/c06.rs (which panic / None / overflow flag is due when). Level is exploration overall; the evidence names the exhaustive slice separately. BoundedInt division (bounded_int::div_rem over boundary dividend ranges and all unsigned divisor types) is covered by a generated family; the other BoundedInt helpers and the u512 family are not.")
+    text="~1M executions per quick run: for each of u8..u128, i8..i128, u256, felt252 a generated crate exposes the operator forms (+ - * / %, unary -) and a batch of overflowing/wrapping/checked/saturating variants, comparisons, bitwise ops, sqrt, wide_mul and wide_square (incl. u256 -> u512), div_rem, felt252_div, try_into to every other type, and for u256 core::math::u256_mul_mod_n / u256_inv_mod / u256_div_mod_n and u512_safe_div_rem_by_u256 (u128: u128_byte_reverse); results and panic data are compared with the mathematical model. The 8-bit slice is exhaustive; wider types are explored on boundary sets (2^k, 2^k+-1, MIN/MAX+-d, perfect squares +-1) and random operands.",
+    note="Trusted: the BigInt model in props/c06.rs (which panic / None / overflow flag is due when). Level is exploration overall; the evidence names the exhaustive slice separately. BoundedInt division (bounded_int::div_rem over boundary dividend ranges and all unsigned divisor types) is covered by a generated family; the other BoundedInt helpers are not.")
 
 CHECKS["C07"] = dict(
     level="exploration", design="DESIGN.md 3/C07",
@@ -74,7 +74,7 @@ CHECKS["C15"] = dict(
 CHECKS["C18"] = dict(
     level="exploration", design="DESIGN.md 3/C18",
     technique="round-trip property-based testing: Sierra programs (corpus + compiled from generated programs, snippets and examples, with raw ids and debug names) through text, felt252 and versioned-JSON serialisation; CASM equality across id renderings",
-    text="~1,900 programs per quick run; per program: display -> parse -> display fixpoint after one round and isomorphism (canonical ids incl. user types), ContractClass felt round trip equality, VersionedProgram JSON equality (value, text, printed form), and byte-identical CASM for raw ids / debug names / canonical ids / parsed / felt-round-tripped versions.",
+    text="~2,300 programs per quick run (every e2e snippet / example swept under the default configuration, plus a sampled part over corpus Sierra, generated programs and drawn configurations); per program: display -> parse -> display fixpoint after one round and isomorphism (canonical ids incl. user types), ContractClass felt round trip equality, debug names stripped and restored through DebugInfo::extract / populate (as contract classes do) then printed and parsed: isomorphic to the original, VersionedProgram JSON equality (value, text, printed form), and byte-identical CASM for raw ids / debug names / canonical ids / parsed / felt-round-tripped / debug-info-populated versions.",
     note="Trusted: CanonicalReplacer plus my user-type renaming as the isomorphism key; identity of ids ignores debug names by design of the code base.")
 
 CHECKS["C16"] = dict(
@@ -86,7 +86,7 @@ CHECKS["C16"] = dict(
 CHECKS["C08"] = dict(
     level="exploration", design="DESIGN.md 3/C08",
     technique="property-based testing with two oracles: (A) error-free diagnostics imply success of every later stage (Sierra generation, registry validation, own Sierra checker, metadata, CASM) over generated programs and front-end-accepted token mutants under random optimisation configurations; (B) metamorphic twins from an ownership-tracking program generator: one injected use-after-move / undropped value must turn an accepted program into a rejected one",
-    text="~3,800 cases per quick run: ~900 error-free sources compiled end to end (generated, corpus, ownership programs and their accepted mutants) and ~1,800 injected twins over 14 injection kinds (by-value, let, snapshot, ref, member, partial-move, in-loop moves; consumption removed; never consumed; panicable call while a value without any destructor lives, inside and outside regions that end with a panic).",
+    text="~3,800 cases per quick run: ~900 error-free sources compiled end to end (generated, corpus, ownership programs, corelib-heavy crates incl. containers over non-copyable elements, and their accepted mutants) and ~1,800 injected twins over 14 injection kinds (by-value, let, snapshot, ref, member, partial-move, in-loop moves; consumption removed; never consumed; panicable call while a value without any destructor lives, inside and outside regions that end with a panic).",
     note="Trusted: my generator's model of the move rules (monitored: a valid twin the compiler rejects is counted and bounded by the health check at 10%). The legacy non-linear gas solver is not part of the pipeline checked here (it is not an optimisation configuration and documents unsupported libfuncs).")
 
 CHECKS["C13"] = dict(
@@ -104,7 +104,7 @@ CHECKS["C12"] = dict(
 CHECKS["C20"] = dict(
     level="exploration", design="DESIGN.md 3/C20",
     technique="differential property-based testing: the same dependent compiled in two databases that differ only in one crate's cache_file (the core library's blob from generate_crate_cache, or the blob of a generated library crate the dependent calls into), under random optimisation configurations; diagnostics, Sierra and CASM compared",
-    text="640 dependents per quick run: ~440 against the corelib cache (generated programs, e2e snippets, examples and corelib-heavy programs composed from 39 functions over iterator adapters, ByteArray / format!, Option / Result combinators, dictionaries, spans, integer traits, u256, hashes, EC, keccak, sha256, Serde, boxes, fixed arrays) and ~200 against the cache of a generated library crate with closure-bearing functions (in half of them the corelib is cached too).",
+    text="640 dependents per quick run: ~440 against the corelib cache (generated programs, e2e snippets, examples and corelib-heavy programs composed from 57 functions over containers of non-copyable elements, deprecated / unstable corelib items, iterator adapters, ByteArray / format!, Option / Result combinators, dictionaries, spans, integer traits, u256, hashes, EC, keccak, sha256, Serde, boxes, fixed arrays) and ~200 against the cache of a generated library crate with closure-bearing functions (in half of them the corelib is cached too).",
     note="The blob is generated under the same global flags as it is used with (a different flag set is refused by the loader, a documented precondition), so the numeric-match flag stays unset. Dependents that panic on both sides are skipped.")
 
 CHECKS["C19"] = dict(
